@@ -1,6 +1,7 @@
 import Drv.Common
 import IwModel.Model.Txt
 import IwModel.Model.ReVm
+import IwModel.Model.Re
 namespace Drv.C17
 open IwModel Drv
 
@@ -35,6 +36,65 @@ def revm (nm : Nat) (text : Bytes) (toks : List String) : String :=
     | .fuel => "revm fuel"
     | .ok none => "revm 0" ++ String.join ((List.replicate nm (none : Option Nat)).map capStr)
     | .ok (some caps) => "revm 1" ++ String.join ((caps ++ List.replicate (nm - caps.length) none).map capStr)
+
+/-- token form of a VM instruction (what `recomp` of the harness prints) -/
+def instrTok : ReVm.Instr → String
+  | .mtch => "M"
+  | .chr c => s!"C{c}"
+  | .any => "A"
+  | .cls false bits => "K" ++ toHex bits
+  | .cls true bits => "N" ++ toHex bits
+  | .split a b => s!"S{a},{b}"
+  | .jump t => s!"J{t}"
+  | .abegin => "B"
+  | .aend => "E"
+  | .save k => s!"V{k}"
+
+/-- prefix-notation dump of a parsed pattern (what `reparse` of the harness prints) -/
+def nodeToks : Re.Node → List String
+  | .eps => ["E"]
+  | .chr c => [s!"C{c}"]
+  | .any => ["A"]
+  | .cls neg frm to => [(if neg then "N" else "K") ++ s!"{frm}:{to}"]
+  | .cat l r => "." :: nodeToks l ++ nodeToks r
+  | .alt l r => "|" :: nodeToks l ++ nodeToks r
+  | .quant nmin nmax greedy q =>
+    let mx := match nmax with | some m => toString m | none => "-1"
+    let g := if greedy then "1" else "0"
+    s!"Q{nmin},{mx},{g}" :: nodeToks q
+  | .abegin => ["B"]
+  | .aend => ["Z"]
+  | .cap c => "P" :: nodeToks c
+
+def outBudget : Nat := 3000
+
+def reparse (pat : Bytes) : String :=
+  match pat[0]? with
+  | some 0 | none => "reparse fail"
+  | _ =>
+    match Re.parse pat with
+    | .ok node => s!"reparse ok {node.size}" ++ String.join (((nodeToks node).take outBudget).map (" " ++ ·))
+    | .fail => "reparse fail"
+    | .ub => "reparse ub"
+    | .oob => "reparse oob"
+    | .fuel => "reparse fuel"
+
+def recomp (pat : Bytes) : String :=
+  match Re.create pat with
+  | .ok prog => s!"recomp {prog.length}" ++ String.join ((prog.take outBudget).map fun i => " " ++ instrTok i)
+  | .fail => "recomp fail"
+  | .ub => "recomp ub"
+  | .oob => "recomp oob"
+  | .fuel => "recomp fuel"
+
+def research (nm : Nat) (pat text : Bytes) : String :=
+  match Re.search pat (text.takeWhile (· ≠ 0)) nm with
+  | .ok none => "research 0" ++ String.join ((List.replicate nm (none : Option Nat)).map capStr)
+  | .ok (some caps) => "research 1" ++ String.join ((caps ++ List.replicate (nm - caps.length) none).map capStr)
+  | .fail => "research fail"
+  | .ub => "research ub"
+  | .oob => "research oob"
+  | .fuel => "research fuel"
 
 def step (ws : List String) : String :=
   match ws with
@@ -80,6 +140,9 @@ def step (ws : List String) : String :=
     let b := hexArg h
     if natArg mx ≤ b.length * 2 then "bin2hex null" else s!"bin2hex {hexOut (Conv.bin2hex b)}"
   | "revm" :: nm :: txt :: toks => revm (natArg nm) (hexArg txt) toks
+  | ["reparse", p] => reparse (cz (hexArg p))
+  | ["recomp", p] => recomp (cz (hexArg p))
+  | ["research", nm, p, t] => research (natArg nm) (cz (hexArg p)) (hexArg t)
   | _ => "bad-op"
 
 end Drv.C17
